@@ -148,7 +148,10 @@ func c6Canon(o c6Out, mode string, boolish bool) string {
 		return "str:" + x
 	}
 	if f, ok := toF(v); ok {
-		return "num:" + strconv.FormatFloat(c6Round(f), 'g', 12, 64)
+		if f == 0 {
+			f = 0 // -0 and 0 are the same number
+		}
+		return "num:" + strconv.FormatFloat(c6Round(f)+0, 'g', 12, 64)
 	}
 	return fmt.Sprintf("other:%T:%v", v, v)
 }
